@@ -390,12 +390,12 @@ def _sd_history(dual, seq, ops=None, maxlen=None):
                 msgs.append(f"{ctx}: end items have outer neighbours")
         if sd.GetCount() != len(model.items):
             msgs.append(f"{ctx}: GetCount()={sd.GetCount()}, {len(model.items)} items inserted")
-        for qx in (0.0, 0.0625, 0.125, 0.2, 0.25, 0.3, 0.5, 0.6, 0.75, 0.9):
+        for qx in (0.0, 0.0625, 0.125, 0.2, 0.25, 0.3, 0.5, 0.6, 0.75, 0.9, 1.0, 1.5):
             f = sd.FindDataItemByOneDimensionalPoint(qx)
-            e = next(i for i in model.items if i.GetX() > qx)
+            e = next((i for i in model.items if i.GetX() > qx), None)     # nothing to the right: no covering interval
             if f is not e:
                 msgs.append(f"{ctx}: FindDataItemByOneDimensionalPoint({qx}) returned x={None if f is None else f.GetX()}, "
-                            f"first item to the right is x={e.GetX()}")
+                            f"first item to the right is x={None if e is None else e.GetX()}")
         drain(model, msgs, ctx)
         if msgs:
             return msgs, None, []
